@@ -795,6 +795,29 @@ def _norm_simple(stmts, ctx):
                     i += 2
                     continue
             nxt = stmts[i + 1] if i + 1 < len(stmts) else None
+            # D = OrderedDict() ; for T in S: D[K] = V      ->      D = OrderedDict(((K, V) for T in S))
+            if isinstance(st, ast.Assign) and len(st.targets) == 1 and isinstance(st.targets[0], ast.Name) \
+                    and ((isinstance(st.value, ast.Call) and isinstance(st.value.func, ast.Name)
+                          and st.value.func.id in ("OrderedDict", "dict") and not st.value.args and not st.value.keywords)
+                         or (isinstance(st.value, ast.Dict) and not st.value.keys)) \
+                    and isinstance(nxt, ast.For) and not nxt.orelse and len(nxt.body) == 1 \
+                    and isinstance(nxt.body[0], ast.Assign) and len(nxt.body[0].targets) == 1 \
+                    and isinstance(nxt.body[0].targets[0], ast.Subscript) and isinstance(nxt.body[0].targets[0].value, ast.Name) \
+                    and nxt.body[0].targets[0].value.id == st.targets[0].id and not ctx.get("final"):
+                D_ = st.targets[0].id
+                K_, V_ = nxt.body[0].targets[0].slice, nxt.body[0].value
+                tn_ = {n.id for n in ast.walk(nxt.target) if isinstance(n, ast.Name)}
+                if not _count_loads(K_, D_) and not _count_loads(V_, D_) and not _count_loads(nxt.iter, D_) \
+                        and not any(n.id in tn_ for s_ in stmts[i + 2:] for n in _names(s_)) \
+                        and not any(isinstance(n, (ast.Yield, ast.YieldFrom)) for n in ast.walk(nxt)):
+                    gen = ast.GeneratorExp(elt=ast.Tuple(elts=[K_, V_], ctx=ast.Load()),
+                                           generators=[ast.comprehension(target=nxt.target, iter=nxt.iter, ifs=[], is_async=0)])
+                    ctor = st.value.func if isinstance(st.value, ast.Call) else ast.Name(id="dict", ctx=ast.Load())
+                    out.append(ast.Assign(targets=st.targets, value=ast.Call(func=ctor, args=[gen], keywords=[]),
+                                          lineno=st.lineno, col_offset=0))
+                    changed = True
+                    i += 2
+                    continue
             # L.reverse() ; x = tuple(L)  (L dead afterwards)   ->   x = tuple(reversed(L))
             if isinstance(st, ast.Expr) and isinstance(st.value, ast.Call) and isinstance(st.value.func, ast.Attribute) \
                     and st.value.func.attr == "reverse" and not st.value.args and isinstance(st.value.func.value, ast.Name) \
@@ -858,6 +881,21 @@ def _norm_simple(stmts, ctx):
                 changed = True
                 i += 2
                 continue
+            # for T in S: if P: raise X        ->      if any((P for T in S)): raise X          (X does not mention T)
+            if isinstance(st, ast.For) and not st.orelse and len(st.body) == 1 and isinstance(st.body[0], ast.If) \
+                    and not st.body[0].orelse and len(st.body[0].body) == 1 and isinstance(st.body[0].body[0], ast.Raise) \
+                    and not ctx.get("final"):
+                tn_ = {n.id for n in ast.walk(st.target) if isinstance(n, ast.Name)}
+                rz = st.body[0].body[0]
+                if not any(isinstance(n, ast.Name) and n.id in tn_ for n in ast.walk(rz)) \
+                        and not any(_count_loads(s_, t_) for s_ in stmts[i + 1:] for t_ in tn_):
+                    gen = ast.GeneratorExp(elt=st.body[0].test, generators=[ast.comprehension(target=st.target, iter=st.iter,
+                                                                                              ifs=[], is_async=0)])
+                    out.append(ast.If(test=ast.Call(func=ast.Name(id="any", ctx=ast.Load()), args=[gen], keywords=[]),
+                                      body=[rz], orelse=[], lineno=st.lineno, col_offset=0))
+                    changed = True
+                    i += 1
+                    continue
             # if C: return False ; return E      ->      return (not C) and E
             if isinstance(st, ast.If) and not st.orelse and len(st.body) == 1 and isinstance(st.body[0], ast.Return) \
                     and isinstance(st.body[0].value, ast.Constant) and st.body[0].value.value is False \
